@@ -485,6 +485,18 @@ func ruleC07_3(c *Ctx) {
 	}
 	c.check(set["Roots"] == "p1", R, fn, "VerifyOptions.Roots = root pool parameter", f.Pos(), "p1", "Roots is "+set["Roots"]+" (an unset Roots means the system roots)")
 	c.check(set["Intermediates"] == "p2", R, fn, "VerifyOptions.Intermediates = intermediate pool parameter", f.Pos(), "p2", "Intermediates is "+set["Intermediates"])
+	// options set from inside a function literal of VerifyCertificateTrust (a retry helper, a closure over the options)
+	for _, g := range f.AnonFuncs {
+		for _, b := range g.Blocks {
+			for _, in := range b.Instrs {
+				if st, ok := in.(*ssa.Store); ok {
+					if fa, ok := st.Addr.(*ssa.FieldAddr); ok && typeStr(fa.X.Type()) == "*crypto/x509.VerifyOptions" {
+						set[fieldName(fa.X.Type(), fa.Field)] = "set inside " + fname(g) + " to " + short(org(st.Val))
+					}
+				}
+			}
+		}
+	}
 	var extra []string
 	for k := range set {
 		if k != "Roots" && k != "Intermediates" {
@@ -495,6 +507,16 @@ func ruleC07_3(c *Ctx) {
 	c.check(len(extra) == 0, R, fn, "no acceptance-widening options", f.Pos(), "only Roots and Intermediates are set", "additional VerifyOptions are set: "+strings.Join(extra, ", ")+" (KeyUsages / CurrentTime / DNSName can widen or change acceptance)")
 	v := firstCall(f, "(*crypto/x509.Certificate).Verify")
 	if v == nil {
+		inClosure := ""
+		for _, g := range f.AnonFuncs {
+			if firstCall(g, "(*crypto/x509.Certificate).Verify") != nil {
+				inClosure = fname(g)
+			}
+		}
+		if inClosure != "" {
+			c.bad(R, fn, "Verify", f.Pos(), "certificate.Verify is only called inside the function literal "+inClosure+", which writes the chain list and the error into captured variables: which attempt's outcome the final test sees is not decidable here (a second attempt overwrites the first attempt's error)")
+			return
+		}
 		c.bad(R, fn, "Verify", f.Pos(), "certificate.Verify is not called")
 		return
 	}
@@ -668,6 +690,62 @@ func (c *Ctx) poolProvenance(R string) {
 				fails = fails || c.failing(branchTaken(cu, false))
 			}
 			out = append(out, poolFeed{org(a[1]), ap, f, fails})
+		}
+		// through a helper that is handed this pool and appends to it: helper(pool, source) bool / error
+		for _, hc := range allCalls(f) {
+			g := hc.Common().StaticCallee()
+			if !isHelper(g) {
+				continue
+			}
+			for ai, a := range hc.Common().Args {
+				if ai >= len(g.Params) || !inPhi(resolve(a, hc)) {
+					continue
+				}
+				for _, ap := range callsIn(g, "(*crypto/x509.CertPool).AppendCertsFromPEM") {
+					aa := ap.Common().Args
+					if resolve(aa[0], ap) != ssa.Value(g.Params[ai]) {
+						continue
+					}
+					sub := map[*ssa.Parameter]string{}
+					for k, prm := range g.Params {
+						if k < len(hc.Common().Args) {
+							sub[prm] = org(hc.Common().Args[k])
+						}
+					}
+					d := orgSubst(aa[1], sub)
+					fails := false
+					for _, cu := range condUsers(ap.Value(), false) {
+						fb := branchTaken(cu, false)
+						ret, ok := fb.Instrs[len(fb.Instrs)-1].(*ssa.Return)
+						if !ok {
+							continue
+						}
+						for k, rv := range ret.Results {
+							if cv, isC := rv.(*ssa.Const); isC && isBool(cv.Type().Underlying()) && cv.Value.String() == "false" {
+								var okv ssa.Value
+								if len(ret.Results) == 1 {
+									okv = hc.Value()
+								} else {
+									okv = extractOf(hc.Value(), k)
+								}
+								if okv != nil {
+									for _, cu2 := range condUsers(okv, false) {
+										fails = fails || c.failing(branchTaken(cu2, false))
+									}
+								}
+							}
+						}
+						if ei := errIndex(g); ei >= 0 && !c.mayBeNilErr(ret.Results[ei], fb, 0) {
+							if e := errResult(hc); e != nil {
+								for _, br := range errBranches(e) {
+									fails = fails || c.failing(br.NonNil)
+								}
+							}
+						}
+					}
+					out = append(out, poolFeed{d, ap, g, fails})
+				}
+			}
 		}
 		// through a helper whose result is (part of) this pool
 		derives(target, func(x ssa.Value) bool {
